@@ -106,4 +106,68 @@ theorem skipUnchecked_unsafe :
   refine ⟨⟨by decide, by decide⟩, by decide, by decide, ?_⟩
   unfold readInBounds skipUnchecked; decide
 
+section Header
+open TpmVerif.Model.Blob
+/-! ### The outermost header of a blob -/
+
+/-- **exactly when the header is accepted**: the blob holds version and magic, the magic is the expected one, and — from
+    version 2 on — it also holds a min_version that is not above what this implementation writes. The version itself is not
+    bounded: a newer writer's blob with an acceptable min_version is taken (its extra blocks are skipped). -/
+theorem headerRefusal_none_iff (bs : Bytes) (magic cur : Nat) :
+    headerRefusal bs magic cur = none ↔
+      ∃ v m, rdBE bs 0 2 = some v ∧ rdBE bs 2 4 = some m ∧ m = magic ∧ (v ≥ 2 → ∃ mv, rdBE bs 6 2 = some mv ∧ mv ≤ cur) := by
+  unfold headerRefusal
+  constructor
+  · intro h
+    cases h0 : rdBE bs 0 2 with
+    | none => simp [h0] at h
+    | some v =>
+      cases h2 : rdBE bs 2 4 with
+      | none => simp [h0, h2] at h
+      | some m =>
+        simp only [h0, h2] at h
+        by_cases hm : m ≠ magic
+        · simp [hm] at h
+        · have hm' : m = magic := by simpa using hm
+          simp only [hm, if_false] at h
+          refine ⟨v, m, rfl, rfl, hm', ?_⟩
+          intro hv
+          simp only [hv, if_true] at h
+          cases h6 : rdBE bs 6 2 with
+          | none => simp [h6] at h
+          | some mv =>
+            simp only [h6] at h
+            by_cases hgt : mv > cur
+            · simp [hgt] at h
+            · exact ⟨mv, rfl, by omega⟩
+  · rintro ⟨v, m, h0, h2, hm, hv⟩
+    simp only [h0, h2]
+    have : ¬ m ≠ magic := by simpa using hm
+    simp only [this, if_false]
+    by_cases hge : v ≥ 2
+    · obtain ⟨mv, h6, hle⟩ := hv hge
+      have : ¬ mv > cur := by omega
+      simp [hge, h6, this]
+    · simp [hge]
+
+/-- a blob too short for version and magic is refused -/
+theorem headerRefusal_short (bs : Bytes) (magic cur : Nat) (h : bs.length < 6) : headerRefusal bs magic cur = some .insufficient := by
+  unfold headerRefusal
+  have h2 : rdBE bs 2 4 = none := by unfold rdBE; simp; omega
+  cases h0 : rdBE bs 0 2 <;> simp [h2]
+
+/-- another magic is refused whatever else the blob says -/
+theorem headerRefusal_magic (bs : Bytes) (magic cur v m : Nat) (h0 : rdBE bs 0 2 = some v) (h2 : rdBE bs 2 4 = some m) (hm : m ≠ magic) :
+    headerRefusal bs magic cur = some .badTag := by
+  unfold headerRefusal; simp [h0, h2, hm]
+
+/-- the header this implementation writes for the permanent state is accepted; the same with another magic, or with a
+    min_version one above, is not; a higher VERSION with the same min_version is -/
+example : headerRefusal [0, 4, 0xab, 0x36, 0x47, 0x23, 0, 4] Gen.PERSISTENT_ALL_MAGIC Gen.PERSISTENT_ALL_VERSION = none ∧
+    headerRefusal [0, 4, 0xab, 0x36, 0x47, 0x22, 0, 4] Gen.PERSISTENT_ALL_MAGIC Gen.PERSISTENT_ALL_VERSION = some .badTag ∧
+    headerRefusal [0, 4, 0xab, 0x36, 0x47, 0x23, 0, 5] Gen.PERSISTENT_ALL_MAGIC Gen.PERSISTENT_ALL_VERSION = some .badVersion ∧
+    headerRefusal [0, 9, 0xab, 0x36, 0x47, 0x23, 0, 4] Gen.PERSISTENT_ALL_MAGIC Gen.PERSISTENT_ALL_VERSION = none ∧
+    headerRefusal [0, 4, 0xab, 0x36, 0x47, 0x23, 0] Gen.PERSISTENT_ALL_MAGIC Gen.PERSISTENT_ALL_VERSION = some .insufficient := by decide
+end Header
+
 end TpmVerif.Props.C06
